@@ -54,6 +54,21 @@ Fixpoint flatten (t : tree) : list N :=
 
 Definition memN (n : N) (l : list N) : bool := existsb (N.eqb n) l.
 
+(** the first byte is [c] *)
+Definition starts_with (c : N) (bs : list N) : bool :=
+  match bs with b :: _ => b =? c | [] => false end.
+
+(** [Some rest] if [bs] begins with the bytes [p] ([tag]) *)
+Fixpoint strip_prefix (p bs : list N) : option (list N) :=
+  match p with
+  | [] => Some bs
+  | x :: p' =>
+    match bs with
+    | y :: bs' => if x =? y then strip_prefix p' bs' else None
+    | [] => None
+    end
+  end.
+
 Fixpoint list_maxN (l : list N) : N :=
   match l with
   | [] => 0
@@ -77,14 +92,16 @@ Fixpoint ptree_rec (fuel : nat) (ob uq : bool) (ins : list N) (bs : list N) {str
         else POk (TLeaf n', n', n' :: ins, space0 r)
     | _ =>
       match bs with
-      | 91 :: r =>
-        match ptree_loop f ob uq [] 0 ins (space0 r) with
-        | POk (ch, mx, ins', r') =>
-          POk (match ch with [t] => t | _ => TInner ch end, mx, ins', r')
-        | PErr => PErr
-        | PFuel => PFuel
-        end
-      | _ => PErr
+      | b :: r =>
+        if b =? 91 then
+          match ptree_loop f ob uq [] 0 ins (space0 r) with
+          | POk (ch, mx, ins', r') =>
+            POk (match ch with [t] => t | _ => TInner ch end, mx, ins', r')
+          | PErr => PErr
+          | PFuel => PFuel
+          end
+        else PErr
+      | [] => PErr
       end
     end
   end
@@ -94,21 +111,17 @@ with ptree_loop (fuel : nat) (ob uq : bool) (acc : list tree) (mx : N) (ins : li
   match fuel with
   | O => PFuel
   | S f =>
-    match space0 bs with
-    | 93 :: r => POk (rev acc, mx, ins, r)
-    | bs1 =>
-      match ptree_rec f ob uq ins bs1 with
+    if starts_with 93 (space0 bs) then POk (rev acc, mx, ins, tl (space0 bs))
+    else
+      match ptree_rec f ob uq ins (space0 bs) with
       | POk (t, smx, ins', r1) =>
         let mx' := if mx <=? smx then smx else mx in
-        match space0 r1 with
-        | 93 :: r => POk (rev (t :: acc), mx', ins', r)
-        | 44 :: r => ptree_loop f ob uq (t :: acc) mx' ins' r
-        | _ => PErr
-        end
+        if starts_with 93 (space0 r1) then POk (rev (t :: acc), mx', ins', tl (space0 r1))
+        else if starts_with 44 (space0 r1) then ptree_loop f ob uq (t :: acc) mx' ins' (tl (space0 r1))
+        else PErr
       | PErr => PErr
       | PFuel => PFuel
       end
-    end
   end.
 
 (** all numbers below [inserted.len()] are in the bit set ([inserted.zeroes().next()] is [None]).
@@ -206,17 +219,16 @@ Definition name_taken (names : vnames) (name : vname) : bool :=
 
 (** [preceded(char('c'), space1)] *)
 Definition c_space1 (bs : list N) : option (list N) :=
-  match bs with
-  | 99 :: r => match space1 r with POk r' => Some r' | _ => None end
-  | _ => None
+  match strip_prefix [99] bs with
+  | Some r => match space1 r with POk r' => Some r' | _ => None end
+  | None => None
   end.
 
 (** [preceded(tag(<a b>), space1)] *)
 Definition tag2_space1 (a b : N) (bs : list N) : option (list N) :=
-  match bs with
-  | x :: y :: r =>
-    if (x =? a) && (y =? b) then match space1 r with POk r' => Some r' | _ => None end else None
-  | _ => None
+  match strip_prefix [a; b] bs with
+  | Some r => match space1 r with POk r' => Some r' | _ => None end
+  | None => None
   end.
 
 (** behind the next '\n' (or the end) *)
@@ -229,29 +241,33 @@ Fixpoint skip_line (bs : list N) : list N :=
 (** [util::eol] *)
 Definition eol (bs : list N) : pres (list N) := line_ending (space0 bs).
 
+(** [if num_vars > vars.names.len() { resize } else if vars.names[var].is_some() { fail }] *)
+Definition grow_names (names : vnames) (v : N) : option vnames :=
+  if lenN names <? v then Some (names ++ repeat None (N.to_nat (v - lenN names)))
+  else match nth (N.to_nat (v - 1)) names None with
+       | Some _ => None
+       | None => Some names
+       end.
+
+(** the value written to [vars.names[var]]: the name if it is valid UTF-8 and new, [""] without name *)
+Definition name_entry (names : vnames) (name : option vname) : option vname :=
+  match name with
+  | Some n => if valid_utf8 n then (if name_taken names n then None else Some n) else None
+  | None => Some []
+  end.
+
 (** the "var order line" branch: [v] is the number read, [name] the optional name *)
 Definition record_apply (st : pstate) (v : N) (name : option vname) : option pstate :=
   if v =? 0 then None
   else if max_capacity <? v then None
   else
-    let var := N.to_nat (v - 1) in
-    let len := lenN (ps_names st) in
-    let grown := if len <? v then Some (ps_names st ++ repeat None (N.to_nat (v - len)))
-                 else match nth var (ps_names st) None with
-                      | Some _ => None
-                      | None => Some (ps_names st)
-                      end in
-    match grown with
+    match grow_names (ps_names st) v with
     | None => None
     | Some names =>
-      let entry := match name with
-                   | Some n => if valid_utf8 n then (if name_taken names n then None else Some n) else None
-                   | None => Some []
-                   end in
-      match entry with
+      match name_entry names name with
       | None => None
       | Some e =>
-        Some (mkPS (upd names var (Some e))
+        Some (mkPS (upd names (N.to_nat (v - 1)) (Some e))
                    (match ps_tree st with None => ps_order st ++ [v - 1] | Some _ => ps_order st end)
                    (ps_tree st) (ps_ctree st))
       end
@@ -386,6 +402,35 @@ Fixpoint print_tree (ob : bool) (t : tree) : list N :=
                | x :: r => print_tree ob x ++ comma_sp ++ go r
                end) l ++ [93]
   end.
+
+(** [print_tree] with the inner loop named *)
+Fixpoint print_trees (ob : bool) (l : list tree) : list N :=
+  match l with
+  | [] => []
+  | [x] => print_tree ob x
+  | x :: r => print_tree ob x ++ comma_sp ++ print_trees ob r
+  end.
+
+(** trees [print_tree] can write so that [p_tree] reads them back: numbers within
+    MAX_CAPACITY, no inner node with exactly one child (the reader flattens [[42]] into [42]) *)
+Fixpoint tree_ok_b (ob : bool) (t : tree) : bool :=
+  match t with
+  | TLeaf n => n + (if ob then 1 else 0) <=? max_capacity
+  | TInner l => negb (Nat.eqb (length l) 1) && forallb (tree_ok_b ob) l
+  end.
+
+Fixpoint nodupN_b (l : list N) : bool :=
+  match l with
+  | [] => true
+  | x :: r => negb (memN x r) && nodupN_b r
+  end.
+
+(** a whole tree: at least one leaf, the leaves cover [0 .. max], distinct if [uq] *)
+Definition tree_top_ok_b (ob uq : bool) (t : tree) : bool :=
+  tree_ok_b ob t
+  && match flatten t with [] => false | _ => true end
+  && forallb (fun i => memN i (flatten t)) (seqN 0 (list_maxN (flatten t) + 1))
+  && (negb uq || nodupN_b (flatten t)).
 
 (** [c <var+1>[ <name>]\n] *)
 Definition print_record (v : N) (name : option vname) : list N :=
